@@ -11,7 +11,7 @@
 
    values: Exports = 0 (All) | ((k e) ...) ; NamedSubset = ((k e) ...) ;
            ImportedExports = 0 (Star) | 1 (StarWithDefault) | (named) *)
-From DG Require Import Base.Util Base.Sexp Model.Lattice Model.Closure.
+From DG Require Import Base.Util Base.Sexp Model.Lattice Model.FcClosure.
 
 Definition C09_CLASSTAG : N := 555555.
 
